@@ -218,26 +218,7 @@ func CheckDispatch(run *report.Run, p *load.Program, generic *load.Program, rule
 		}
 		sort.Strings(res.BuildOnly)
 	}
-	// --- closure: every live returning path calls a member of V --------------
-	inV := func(fn *ssa.Function) bool { return fn != nil && V[topLevel(fn)] }
-	for changed := true; changed; {
-		changed = false
-		for _, fn := range funcs {
-			if fn.Parent() != nil || V[fn] || len(fn.Blocks) == 0 {
-				continue
-			}
-			if allPathsCall(fn, inV) {
-				V[fn] = true
-				changed = true
-			}
-		}
-	}
-	for fn := range V {
-		res.VectorOnly = append(res.VectorOnly, funcKey(fn))
-	}
-	sort.Strings(res.VectorOnly)
-
-	// --- edges and guards ----------------------------------------------------
+	// --- the dispatch flag -----------------------------------------------------
 	var flagG *ssa.Global
 	switch m := ppk.Members[flagName].(type) {
 	case *ssa.Global:
@@ -250,6 +231,45 @@ func CheckDispatch(run *report.Run, p *load.Program, generic *load.Program, rule
 		run.Fatal("E-SIB dispatch: anchor %s.%s not found in configuration %s", curveRel, flagName, p.Cfg.ID)
 		return res
 	}
+	// --- closure ----------------------------------------------------------------
+	// A function joins V when every live returning path calls a member of V,
+	// unless it belongs to the public API or is an initialiser (those must
+	// work in every configuration, so an unguarded call of vector code in them
+	// — or in a helper they call unguarded — is reported, not absorbed).
+	// why[f] remembers the call that made f vector-only, for the diagnosis.
+	type reason struct {
+		callee *ssa.Function
+		pos    token.Pos
+	}
+	why := map[*ssa.Function]reason{}
+	inV := func(fn *ssa.Function) bool { return fn != nil && V[topLevel(fn)] }
+	for changed := true; changed; {
+		changed = false
+		for _, fn := range funcs {
+			if fn.Parent() != nil || V[fn] || len(fn.Blocks) == 0 || fn.Synthetic != "" || isPublicAPI(fn) || fn.Name() == "init" {
+				continue
+			}
+			if allPathsCall(fn, inV) {
+				V[fn] = true
+				changed = true
+				for _, b := range fn.Blocks {
+					for _, in := range b.Instrs {
+						if c := staticCallee(in); c != nil && inV(c) && c != fn {
+							if _, have := why[fn]; !have {
+								why[fn] = reason{c, in.Pos()}
+							}
+						}
+					}
+				}
+			}
+		}
+	}
+	for fn := range V {
+		res.VectorOnly = append(res.VectorOnly, funcKey(fn))
+	}
+	sort.Strings(res.VectorOnly)
+
+	// --- edges and guards ----------------------------------------------------
 	for _, fn := range funcs {
 		if inV(fn) || len(fn.Blocks) == 0 {
 			continue
@@ -324,7 +344,11 @@ func CheckDispatch(run *report.Run, p *load.Program, generic *load.Program, rule
 				construct := funcKey(fn) + " -> " + funcKey(callee)
 				switch {
 				case g == nil:
-					ru.Failf(p.Pos(in.Pos()), construct, "call into the vector-only set is not dominated by the true edge of a test of %s", flagName)
+					msg := sprintf("call into the vector-only set is not dominated by the true edge of a test of %s", flagName)
+					if r, ok := why[topLevel(callee)]; ok {
+						msg += sprintf("; %s counts as vector-only because every path through it calls %s (%s)", funcKey(callee), funcKey(r.callee), p.Pos(r.pos))
+					}
+					ru.Failf(p.Pos(in.Pos()), construct, "%s", msg)
 				case flagG == nil && live[b]:
 					ru.Failf(p.Pos(in.Pos()), construct, "call into the vector-only set is live in configuration %s although %s is the constant false", p.Cfg.ID, flagName)
 				default:
@@ -360,6 +384,22 @@ func CheckDispatch(run *report.Run, p *load.Program, generic *load.Program, rule
 	}
 	sort.SliceStable(res.Pairs, func(i, j int) bool { return res.Pairs[i].Dispatcher < res.Pairs[j].Dispatcher })
 	return res
+}
+
+// isPublicAPI reports whether fn is an exported function or an exported
+// method of an exported type.
+func isPublicAPI(fn *ssa.Function) bool {
+	o, ok := fn.Object().(*types.Func)
+	if !ok || o == nil {
+		return true // synthetic: never a candidate
+	}
+	if !o.Exported() {
+		return false
+	}
+	if rn := recvNamed(o); rn != nil {
+		return rn.Obj().Exported()
+	}
+	return true
 }
 
 func pkgOf(fn *ssa.Function) *types.Package {
